@@ -11,10 +11,10 @@ import (
 
 // Stale handle kinds.
 const (
-	StaleFree     = iota // dead, its ID is currently unused
-	StaleReused          // dead, a newer incarnation of the ID is alive
-	StaleReusedDead      // dead, newer incarnations exist but are dead too
-	StaleZero            // the zero entity
+	StaleFree       = iota // dead, its ID is currently unused
+	StaleReused            // dead, a newer incarnation of the ID is alive
+	StaleReusedDead        // dead, newer incarnations exist but are dead too
+	StaleZero              // the zero entity
 	NStale
 )
 
@@ -245,20 +245,24 @@ func init() {
 	})
 	// ---- structural operations on a locked world (h is an alive entity; the generator only picks these while a query is open)
 	lockedOps := map[string]func(d *Drv, op *Op, h, aux ecs.Entity){
-		"World.NewEntity":      func(d *Drv, op *Op, h, _ ecs.Entity) { d.W.NewEntity() },
-		"World.NewEntities":    func(d *Drv, op *Op, h, _ ecs.Entity) { d.W.NewEntities(3, nil) },
-		"World.RemoveEntity":   func(d *Drv, op *Op, h, _ ecs.Entity) { d.W.RemoveEntity(h) },
-		"World.CopyEntity":     func(d *Drv, op *Op, h, _ ecs.Entity) { d.W.CopyEntity(h) },
-		"World.RemoveEntities": func(d *Drv, op *Op, h, _ ecs.Entity) { d.W.RemoveEntities(typed.NewFilter0(d.W, false).Batch(nil), nil) },
-		"World.Reset":          func(d *Drv, op *Op, h, _ ecs.Entity) { d.W.Reset() },
-		"Unsafe.NewEntity":     func(d *Drv, op *Op, h, _ ecs.Entity) { d.U.NewEntity(d.ID[u.IP8]) },
-		"Unsafe.Add":           func(d *Drv, op *Op, h, _ ecs.Entity) { d.U.Add(h, d.ids(op.Add)...) },
-		"Unsafe.Remove":        func(d *Drv, op *Op, h, _ ecs.Entity) { d.U.Remove(h, d.ids(op.Rem)...) },
-		"Unsafe.Exchange":      func(d *Drv, op *Op, h, _ ecs.Entity) { d.U.Exchange(h, d.ids(op.Add), d.ids(op.Rem)) },
-		"Map.NewEntity":        func(d *Drv, op *Op, h, _ ecs.Entity) { d.Maps[u.IP8].NewEntity(1, nil) },
-		"Map.NewBatch":         func(d *Drv, op *Op, h, _ ecs.Entity) { d.Maps[u.IP8].NewBatch(2, 1, nil) },
-		"Map.Add":              func(d *Drv, op *Op, h, _ ecs.Entity) { d.Maps[op.Add[0]].Add(h, 1, nil) },
-		"Map.Remove":           func(d *Drv, op *Op, h, _ ecs.Entity) { d.Maps[op.Rem[0]].Remove(h) },
+		"World.NewEntity":    func(d *Drv, op *Op, h, _ ecs.Entity) { d.W.NewEntity() },
+		"World.NewEntities":  func(d *Drv, op *Op, h, _ ecs.Entity) { d.W.NewEntities(3, nil) },
+		"World.RemoveEntity": func(d *Drv, op *Op, h, _ ecs.Entity) { d.W.RemoveEntity(h) },
+		"World.CopyEntity":   func(d *Drv, op *Op, h, _ ecs.Entity) { d.W.CopyEntity(h) },
+		"World.RemoveEntities": func(d *Drv, op *Op, h, _ ecs.Entity) {
+			d.W.RemoveEntities(typed.NewFilter0(d.W, false).Batch(nil), nil)
+		},
+		"World.Reset":      func(d *Drv, op *Op, h, _ ecs.Entity) { d.W.Reset() },
+		"World.Shrink":     func(d *Drv, op *Op, h, _ ecs.Entity) { d.W.Shrink() },
+		"World.Shrink(0)":  func(d *Drv, op *Op, h, _ ecs.Entity) { d.W.Shrink(0) },
+		"Unsafe.NewEntity": func(d *Drv, op *Op, h, _ ecs.Entity) { d.U.NewEntity(d.ID[u.IP8]) },
+		"Unsafe.Add":       func(d *Drv, op *Op, h, _ ecs.Entity) { d.U.Add(h, d.ids(op.Add)...) },
+		"Unsafe.Remove":    func(d *Drv, op *Op, h, _ ecs.Entity) { d.U.Remove(h, d.ids(op.Rem)...) },
+		"Unsafe.Exchange":  func(d *Drv, op *Op, h, _ ecs.Entity) { d.U.Exchange(h, d.ids(op.Add), d.ids(op.Rem)) },
+		"Map.NewEntity":    func(d *Drv, op *Op, h, _ ecs.Entity) { d.Maps[u.IP8].NewEntity(1, nil) },
+		"Map.NewBatch":     func(d *Drv, op *Op, h, _ ecs.Entity) { d.Maps[u.IP8].NewBatch(2, 1, nil) },
+		"Map.Add":          func(d *Drv, op *Op, h, _ ecs.Entity) { d.Maps[op.Add[0]].Add(h, 1, nil) },
+		"Map.Remove":       func(d *Drv, op *Op, h, _ ecs.Entity) { d.Maps[op.Rem[0]].Remove(h) },
 		"Map.AddBatch": func(d *Drv, op *Op, h, _ ecs.Entity) {
 			d.Maps[u.IP8].AddBatch(typed.NewFilter0(d.W, false).Batch(nil), 1, nil)
 		},
